@@ -461,6 +461,29 @@ def _has_qty(prog):
                or q['t'] == 'eyrp' for q in walk(prog))
 
 
+def _zero(z):
+    if z['t'] == 'num':
+        return z['v'] == 0
+    if z['t'] == 'new' and z['k']['c'] == 'Constant' and z['args']:
+        kids = z['args']['l'] if 'l' in z['args'] else [z['args']['s']]
+        return len(kids) == 1 and kids[0]['t'] == 'num' and kids[0]['v'] == 0
+    return False
+
+
+def _strip(q):
+    """the operand a program really hands on after the identity short-cuts: -(-x), x + 0, 0 + x, x - 0 are x"""
+    while q['t'] == 'op':
+        if q['o'] == 'neg' and q['a']['t'] == 'op' and q['a']['o'] == 'neg':
+            q = q['a']['a']
+        elif q['o'] in ('add', 'sub') and _zero(q['b']) and q['a']['t'] not in ('num', 'str'):
+            q = q['a']
+        elif q['o'] == 'add' and q['a']['t'] == 'num' and _zero(q['a']) and q['b']['t'] not in ('num', 'str'):
+            q = q['b']
+        else:
+            break
+    return q
+
+
 class Real:
     """execution of a build program on the real classes"""
 
@@ -785,9 +808,7 @@ class C16(Property):
                     raise Skip('bare Fraction operand')
             if p['o'] in ('sub', 'mul', 'div'):
                 for side in ('a', 'b'):     # UnaryWrapper: "can only be used when unique_keys are None" (documented ValueError)
-                    q = p[side]
-                    while q['t'] == 'op' and q['o'] == 'neg' and q['a']['t'] == 'op' and q['a']['o'] == 'neg':
-                        q = q['a']['a']      # -(-x) is x
+                    q = _strip(p[side])
                     if q['t'] == 'new' and q['k']['c'] == 'MassAction' and (q['uk'] is not None or q['args'] is None):
                         raise Skip('MassAction with unique keys in * / -')
                     if (side == 'b' and p['o'] == 'sub' and q['t'] == 'new' and q['k']['c'] == 'MassAction' and q['args'] and 'l' in q['args']
@@ -1221,6 +1242,7 @@ class C16(Property):
     @staticmethod
     def _is_ma(q):
         """does this program build a MassAction instance (directly, or through UnaryWrapper arithmetic)?"""
+        q = _strip(q)
         if q['t'] in ('arrp', 'eyrp'):
             return True
         if q['t'] == 'new':
